@@ -6,13 +6,22 @@
 # (Equivalent to: git -C /repo apply <patch>; ./check ...; git -C /repo checkout -- .)
 set -u
 P=$(readlink -f "$1"); PROP=$2; TIER=${3:-quick}; shift; shift; shift || true
+if [ -n "${CACHE:-}" ]; then
+	# one persistent scratch pair (worktree + copy of /verif with its build directory): only what the patch touches is recompiled.
+	# Not for parallel use.  Remove with: git -C /repo worktree remove --force /tmp/vpmut-cache/repo; rm -rf /tmp/vpmut-cache
+	T=/tmp/vpmut-cache; KEEP=1
+	if [ ! -d "$T/repo" ]; then mkdir -p "$T"; git -C /repo worktree add --detach "$T/repo" HEAD >/dev/null 2>&1 || { echo "worktree failed"; exit 3; }; fi
+	git -C "$T/repo" checkout -q -- . ; git -C "$T/repo" checkout -q --detach "$(git -C /repo rev-parse HEAD)"
+	mkdir -p "$T/verif"
+else
 T=$(mktemp -d /tmp/vpmut.XXXXXX)
 git -C /repo worktree add --detach "$T/repo" HEAD >/dev/null 2>&1 || { echo "worktree failed"; exit 3; }
-cleanup() { if [ -n "${KEEP:-}" ]; then echo "kept: $T"; return; fi; git -C /repo worktree remove --force "$T/repo" >/dev/null 2>&1; rm -rf "$T"; }
+fi
+cleanup() { if [ -n "${CACHE:-}" ]; then git -C "$T/repo" checkout -q -- . ; return; fi; if [ -n "${KEEP:-}" ]; then echo "kept: $T"; return; fi; git -C /repo worktree remove --force "$T/repo" >/dev/null 2>&1; rm -rf "$T"; }
 trap cleanup EXIT
 for f in include/config.h include/qb/qbconfig.h; do [ -e /repo/$f ] && cp /repo/$f "$T/repo/$f"; done
 git -C "$T/repo" apply "$P" || { echo "patch does not apply"; exit 3; }
-mkdir "$T/verif" && (cd /verif && tar cf - --exclude=./build --exclude=./.git .) | tar xf - -C "$T/verif"
+mkdir -p "$T/verif" && (cd /verif && tar cf - --exclude=./build --exclude=./.git --exclude=./replays --exclude=./evidence .) | tar xf - -C "$T/verif"
 cd "$T/verif" && REPO="$T/repo" ./check $PROP $TIER "$@" 2>&1 | sed "s#$T/verif#/verif#g" | cut -c1-600 | tail -${LINES_OUT:-12}
 rc=${PIPESTATUS[0]}
 if [ -n "${KEEP_REPLAYS:-}" ]; then mkdir -p "$KEEP_REPLAYS"; cp -r "$T/verif/replays/$PROP/." "$KEEP_REPLAYS/" 2>/dev/null; fi
